@@ -16,6 +16,12 @@
 # same for `meson configure`.  These cases go through the argument parser that the command itself builds (msetup /
 # mconf add_arguments) and cmdline.parse_cmd_line_options, in tier A and (as real commands) in tier B.
 #
+# The prefix has a spelling dimension of its own (prefix-spelling, prefix-spelling-flag, prefix-configure): the same directory
+# written as p, p/, p//, p/. or with a doubled inner slash, given by every subset of the sources (and by meson configure), the
+# spelling applied to all sources / the winning one / the losing ones; every prefix-dependent directory default is compared
+# with the documented table for the directory that the winning source named.  Invalid values include array texts that start
+# with a bracket but are no list and lists of non-strings; backend_max_links is a late option of the kind "backend".
+#
 # Tier A drives a real OptionStore in-process through the same calls and helper functions the interpreter uses
 # (OptionInterpreter.process + update_project_options, _default_options_convertor, parse_cmd_line_options, the real
 # machine-file parser + Environment._load_machine_file_options, initialize_from_top_level_project_call,
@@ -218,7 +224,17 @@ LK = {
                  'late': 'compiler', 'permachine': True},
     'b_ndebug': {'type': 'combo', 'choices': ['true', 'false', 'if-release'], 'vals': ['false', 'true', 'if-release'], 'persub': None, 'late': 'base'},
     'b_lto':    {'type': 'boolean', 'vals': [False, True], 'persub': None, 'late': 'base'},
+    # backend option (Build-options.md "Ninja / Max links", listed by meson configure among the Backend options, ">=0"): comes into
+    # existence when the backend is chosen, after all sources have been read.  Tier A: the real Environment.init_backend_options
+    # + CoreData.init_backend_options; tier B: a setup with the ninja backend.
+    'backend_max_links': {'type': 'integer', 'min': 0, 'vals': [0, 3, 7], 'persub': None, 'late': 'backend'},
 }
+
+
+def mark_late(scn, name):
+    scn['late'].append(name)
+    if LK[name]['late'] != 'backend':
+        scn['langs'] = True        # the option belongs to a language: tier B needs a real compiler
 ALLK = {}
 ALLK.update(PK)
 ALLK.update(BK)
@@ -398,11 +414,21 @@ def a_cmdline(scn, real_argparse=False):
 LATE_STD_CHOICES = ['none', 'c89', 'c99', 'c11', 'c17']
 
 
-def a_add_late(store, scn, subproject):
-    """CoreData.process_compiler_options for language c (host machine; plus build machine when cross)."""
+def a_add_late(store, scn, subproject, M=None):
+    """CoreData.process_compiler_options for language c (host machine; plus build machine when cross); for a backend option
+    Interpreter.set_backend -> Environment.init_backend_options('ninja') of the top-level project."""
     import copy
     machines = [MachineChoice.HOST] + ([MachineChoice.BUILD] if scn['cross'] else [])
     for name in scn['late']:
+        if LK[name]['late'] == 'backend':
+            if not subproject:
+                from mesonbuild.coredata import CoreData
+                Environment = _envmods()['Environment']
+                cd = types.SimpleNamespace(optstore=store)
+                cd.init_backend_options = types.MethodType(CoreData.init_backend_options, cd)
+                fe = types.SimpleNamespace(options=dict(M or {}), coredata=cd, first_invocation=True)
+                Environment.init_backend_options(fe, 'ninja')
+            continue
         for m in machines:
             if name == 'c_std':
                 key = OptionKey(name, subproject or None, m)
@@ -492,7 +518,7 @@ def _run_a(scn, real_argparse):
         stage = 'top-init'
         store.initialize_from_top_level_project_call(P, C, M)
         stage = 'top-late'
-        a_add_late(store, scn, '')
+        a_add_late(store, scn, '', M)
         a_observe(store, scn, 'top', res['obs'])
         res['bad'] += a_scan(store)
         if scn['has_sub']:
@@ -648,8 +674,7 @@ def fam_top(names, cross, dict_form, mstr, decoy=False, with_sub=False):
                 else:
                     default = vals[0]
                 if name in LK:
-                    scn['late'].append(name)
-                    scn['langs'] = True
+                    mark_late(scn, name)
                 for s in sub:
                     if s == 'D':
                         continue
@@ -681,8 +706,7 @@ def fam_permachine(names):
                 scn = new_scn(True, False)
                 val = {s: vals[digit(IDX[s], a, n, nd)] for s in IDX}
                 if name in LK:
-                    scn['late'].append(name)
-                    scn['langs'] = True
+                    mark_late(scn, name)
                 host, build = {}, {}
                 for s in sub:
                     put(scn, s, name, val[s])
@@ -742,8 +766,7 @@ def fam_sub(mode, names, cross, dict_form, mstr, only_subsets=None):
                 weak = False
                 if mode == 'bsub':
                     if name in LK:
-                        scn['late'].append(name)
-                        scn['langs'] = True
+                        mark_late(scn, name)
                     for s in sub:
                         put(scn, s, name, val[s], mstr)
                         present[s] = val[s]
@@ -1042,9 +1065,10 @@ def fam_conf_flag(bases=None, cross=False):
     for name in CONF_FLAG_NAMES:
         k = ALLK[name]
         vals = distinct_vals(k)
-        invs = [iv for _, iv, typed in INVALID.get(name, []) if not typed]
+        invs = [(iv, cls) for cls, iv, typed in INVALID.get(name, []) if not typed]
         for base in ([[], ['P'], ['M'], ['C']] if bases is None else bases):
-            for v, valid in [(cstr(vals[-1]), True)] + [(iv, False) for iv in invs]:
+            for v, valid in [(cstr(vals[-1]), None)] + invs:
+                cls, valid = valid, valid is None
                 for style in ('D',) + FLAG_STYLES:
                     st = 'D' if style == 'D' else flag_style(name, v, style, 'configure')
                     if st is None or (st == 'bare' and style != FLAG_STYLES[0]):
@@ -1062,7 +1086,7 @@ def fam_conf_flag(bases=None, cross=False):
                     else:
                         exp.update({'cc0:ok': ['eq', False], 'cc0:unchanged': ['eq', True]})
                     yield {'fam': 'configure-flag', 'scn': scn, 'exp': exp, 'reject': 'mustnot',
-                           'meta': {'name': name, 'base': base, 'value': v, 'valid': valid, 'cstyle': st, 'nsrc': len(base) + 1}}
+                           'meta': {'name': name, 'base': base, 'value': v, 'valid': valid, 'class': cls, 'cstyle': st, 'nsrc': len(base) + 1}}
 
 
 # ------------------------------------------------------------------------------------------------------------
@@ -1260,6 +1284,7 @@ INVALID = {
     'c_std': [('outside-choices', 'c23x', False)],
     'b_ndebug': [('outside-choices', 'maybe', False)],
     'b_lto': [('not-boolean', 'maybe', False)],
+    'backend_max_links': [('below-min', '-1', False), ('not-integer', 'x', False)],
 }
 # Build-options.md does not say that repeated array elements are invalid (the implementation only deprecates them)
 UNSPEC_INVALID = [('varr', 'duplicate-element', 'x,x')]
@@ -1293,8 +1318,7 @@ def fam_invalid(cross=False):
                 for other in [None] + [s for s in tsrc if s != s_inv]:
                     scn = new_scn(cross, False)
                     if name in LK:
-                        scn['late'].append(name)
-                        scn['langs'] = True
+                        mark_late(scn, name)
                     present = {}
                     dval = vals[0]
                     if proj:
@@ -1326,8 +1350,7 @@ def fam_invalid(cross=False):
                 for other in [None] + [s for s in ssrc if s != s_inv]:
                     scn = new_scn(cross, True)
                     if name in LK:
-                        scn['late'].append(name)
-                        scn['langs'] = True
+                        mark_late(scn, name)
                     present = {}
                     if proj:
                         scn['top_decl'].append([name, name, vals[0], False])
@@ -1360,11 +1383,12 @@ def fam_conf(cross=False):
         k = ALLK[name]
         proj = name in PK
         vals = distinct_vals(k)
-        invs = [iv for _, iv, typed in INVALID.get(name, []) if not typed]
+        invs = [(iv, cls) for cls, iv, typed in INVALID.get(name, []) if not typed]
         for mode in (('pnon', 'pyield') if proj else ('bsub',)):
             for base in ([], ['CS'], ['S'], ['C']):
                 for target in ('sub', 'top'):
-                    for v, valid in [(cstr(vals[-1]), True)] + [(iv, False) for iv in invs]:
+                    for v, valid in [(cstr(vals[-1]), None)] + invs:
+                        cls, valid = valid, valid is None
                         scn = new_scn(cross, True)
                         if proj:
                             scn['top_decl'].append([name, name, vals[0], False])
@@ -1386,7 +1410,8 @@ def fam_conf(cross=False):
                             else:
                                 exp['conf0:top:' + name] = ['eq', vals[-1]]
                         yield {'fam': 'configure', 'scn': scn, 'exp': exp, 'reject': 'mustnot',
-                               'meta': {'name': name, 'mode': mode, 'base': base, 'target': target, 'value': v, 'valid': valid, 'nsrc': len(base) + 1}}
+                               'meta': {'name': name, 'mode': mode, 'base': base, 'target': target, 'value': v, 'valid': valid, 'class': cls,
+                                        'nsrc': len(base) + 1}}
 
 
 # ------------------------------------------------------------------------------------------------------------
@@ -1462,6 +1487,12 @@ def classify(case, okey, e, got):
             pk, sk = PK[tops[name][1]], PK[subs[name][1]]
             if pk['type'] == sk['type'] and not ref_valid_kind(sk, got):
                 return 'C07:yield:same-type-other-choices:parent-value-outside-own-choices'
+    if name in LK and LK[name]['late'] == 'backend' and 'winner' in case['meta']:
+        # a backend option: which source's value is in effect instead of the documented winner's
+        vals = {'P': [v for k_, v in scn['P'] if k_ == name], 'M': [v for sec, k_, v in scn['M'] if k_ == name and ':' not in sec],
+                'C': [v for k_, v in scn['C'] if k_ == name]}
+        src = [s_ for s_ in ('C', 'M', 'P') if any(cstr(v) == cstr(got) for v in vals[s_])]
+        return 'C07:precedence:backend-option:%s-in-effect-instead-of-%s' % (src[0] if src else 'default', case['meta']['winner'])
     k = kind_of(name)
     return 'C07:value:%s:%s:%s' % (fam, where, (k['type'] if k else name))
 
@@ -1513,7 +1544,7 @@ def judge(case, res, tier):
     meta = case['meta']
     fam = case['fam']
     if res.get('crash'):
-        if 'class' in meta and 'source' in meta:
+        if meta.get('class'):
             # an invalid value: the class of the value and the exception that escapes name the defect (the same one is reached from
             # several sources and in both tiers)
             excs = re.findall(r'^([A-Za-z_][\w.]*(?:Error|Exception))\b', res['crash'][1], re.M)
@@ -1646,7 +1677,9 @@ def b_tree(scn):
     files['meson.build'] = '\n'.join(top) + '\n'
     if scn['top_decl']:
         files['meson.options'] = decl_text(scn['top_decl'])
-    argv = ['setup', 'bld', '--backend=none']
+    argv = ['setup', 'bld']
+    if not any(LK[n]['late'] == 'backend' for n in scn['late']):
+        argv.append('--backend=none')       # (a backend option only exists with its backend: ninja, stood in for by $NINJA)
     if scn['cross']:
         files['cross.ini'] = machine_text(scn['M'], True)
         argv += ['--cross-file', 'cross.ini']
